@@ -6,6 +6,7 @@ CONSTANTS
   Mode = "context"
   GeomRefs = {}
   MaxFrags = 1
+  DistMode = "zero"
   Variant = "design"
 INVARIANT Inv_C14_OnTarget
 INVARIANT Inv_C14_DoveSafe
